@@ -6,13 +6,15 @@
    specified contents (C14).                                                   *)
 EXTENDS ActorCore, Json, IOUtils
 
-CONSTANT Prop   \* "C14": every reply; "C07": only what depends on the capability; "C12": only subscriber event streams
+CONSTANT Prop   \* "C14": every reply; "C07": only what depends on the capability; "C12": only subscriber event streams;
+                \* "C17" / "C15" / "C13" / "C16": the useful-peer list / the download policy (and the download flag of remote
+                \* events) / news detection / the protected content hashes as served through the actor
 
 Rec == ndJsonDeserialize(IOEnv.TRACE)
 VARIABLES l, st, pend   \* pend[sid]: events subscriber sid must have received since the last drain
 vars == <<l, st, pend>>
 
-StartWith(caps) == [docs |-> [d \in 1..Len(caps) |-> [cap |-> caps[d], recs |-> {}, peers |-> <<>>]], open |-> <<>>, authors |-> {1, 2}]
+StartWith(caps) == [docs |-> [d \in 1..Len(caps) |-> [cap |-> caps[d], recs |-> {}, peers |-> <<>>, pol |-> DefaultPolicy]], open |-> <<>>, authors |-> {1, 2}]
 Start == StartWith(<<"write", "write">>)
 
 ValOk(q, R) ==
@@ -28,7 +30,7 @@ Succ(q, R) == IF q.op = "Drop" /\ R.res # "ok" THEN {R.st, st} ELSE {R.st}
 \* ---- subscriber events through the actor (C12) ----
 Writes == {"InsertLocal", "DeletePrefix", "InsertRemote"}
 EvOf(q) == IF q.op = "InsertRemote"
-           THEN [o |-> "remote", e |-> q.e, from |-> 1, cs |-> 2, dl |-> TRUE]     \* default policy: download everything
+           THEN [o |-> "remote", e |-> q.e, from |-> 1, cs |-> 2, dl |-> Matches(st.docs[q.d].pol, q.e.k)]   \* the policy current at that moment
            ELSE [o |-> "local", e |-> q.e, from |-> 0, cs |-> 0, dl |-> FALSE]
 Subs(q) == IF IsOpen(st, q.d) THEN st.open[q.d].subs ELSE {}
 Known(sids) == [s \in (DOMAIN pend) \cup sids |-> IF s \in DOMAIN pend THEN pend[s] ELSE <<>>]
@@ -36,12 +38,21 @@ NextPend(q, R) ==
   LET p0 == Known(IF q.op \in {"Open", "Subscribe", "Unsubscribe"} THEN {q.sid} ELSE {}) IN
   \* C12 speaks of entries that actually entered the replica: it follows the acknowledged outcome (whether the entry
   \* should have been admitted is C02's question); the other properties follow the specified outcome
-  IF q.op \in Writes /\ (IF Prop = "C12" THEN q.res = "ok" ELSE R.res = "ok")
+  IF q.op \in Writes /\ (IF Prop \in {"C12", "C15"} THEN q.res = "ok" ELSE R.res = "ok")
   THEN [s \in DOMAIN p0 |-> IF s \in Subs(q) THEN Append(p0[s], EvOf(q)) ELSE p0[s]]
   ELSE p0
-DrainOk(r) ==
-  \A i \in 1..Len(r.evs) :
-     r.evs[i].events = (IF r.evs[i].sid \in DOMAIN pend THEN pend[r.evs[i].sid] ELSE <<>>)
+Want(r, i) == IF r.evs[i].sid \in DOMAIN pend THEN pend[r.evs[i].sid] ELSE <<>>
+DrainOk(r) == \A i \in 1..Len(r.evs) : r.evs[i].events = Want(r, i)
+\* C14 asks for the events, not for the download flag (that is C12's and C15's subject)
+Strip(ev) == [o |-> ev.o, e |-> ev.e, from |-> ev.from, cs |-> ev.cs]
+DrainOkNoDl(r) == \A i \in 1..Len(r.evs) :
+   /\ Len(r.evs[i].events) = Len(Want(r, i))
+   /\ \A j \in 1..Len(Want(r, i)) : Strip(r.evs[i].events[j]) = Strip(Want(r, i)[j])
+\* C15: the download flag of every remote event is the verdict of the policy that was current when the entry was applied
+\* (whether the right events arrive at all is C12's question: judged only where the streams line up)
+DrainDlOk(r) == \A i \in 1..Len(r.evs) :
+   Len(r.evs[i].events) = Len(Want(r, i)) =>
+      \A j \in 1..Len(Want(r, i)) : r.evs[i].events[j].o = "remote" => r.evs[i].events[j].dl = Want(r, i)[j].dl
 
 \* requests about which C14 says nothing (it names reading, writing, subscribing and reconciling on a document that is
 \* not open, not these): either outcome is accepted, the state does not change in any case
@@ -58,8 +69,16 @@ ReqStep(q) ==
         \* (nothing for a document that is not there) - whether reading asks for an open document is not C17's business
         /\ q.op = "RegisterPeer" => (q.res = "ok") = (R.res = "ok")
         /\ q.op = "GetPeers" => IF q.res = "ok" THEN q.val = st.docs[q.d].peers ELSE ~IsOpen(st, q.d)
+  \* C15 through the actor: a policy can be set exactly for a document that exists and is read back unchanged
+  /\ (Prop = "C15" /\ q.op = "SetPolicy") => (q.res = "ok") = (R.res = "ok")
+  /\ (Prop = "C15" /\ q.op = "GetPolicy" /\ st.docs[q.d].cap # "none") => q.res = "ok" /\ q.val = R.val
+  \* C16 through the actor: no policy of a document that is not there can be observed; the hash list is exact
+  /\ (Prop = "C16" /\ q.op = "GetPolicy" /\ st.docs[q.d].cap = "none" /\ q.res = "ok") => q.val = R.val
+  /\ (Prop = "C16" /\ q.op = "Hashes") => q.res = "ok" /\ ToSet(q.val[1]) = R.val[1]
+  \* C13 through the actor: a report is news exactly for the authors it names with a newer timestamp than any record held
+  /\ (Prop = "C13" /\ q.op = "HasNews") => q.res = "ok" /\ q.val = R.val
   /\ Prop = "C14" => \/ Silent(st, q)
-                     \/ q.op \in {"RegisterPeer", "GetPeers"}          \* (not C14's subject)
+                     \/ q.op \in {"RegisterPeer", "GetPeers", "SetPolicy", "GetPolicy", "HasNews", "Hashes"}   \* (not C14's subject)
                      \/ /\ (q.res = "ok") = (R.res = "ok")
                         /\ q.res = "ok" => ValOk(q, R)
   \* C07: a write attempt that passes the open / author gates is refused exactly when the capability is not write
@@ -90,7 +109,7 @@ Step ==
   /\ LET r == Rec[l] IN
        CASE r.ev = "Reset" -> st' = StartWith(r.caps) /\ pend' = <<>>
          [] r.ev = "Req" -> ReqStep(r)
-         [] r.ev = "Drain" -> (Prop \in {"C12", "C14"} => DrainOk(r)) /\ st' = st /\ pend' = [s \in DOMAIN pend |-> <<>>]
+         [] r.ev = "Drain" -> (Prop = "C12" => DrainOk(r)) /\ (Prop = "C14" => DrainOkNoDl(r)) /\ (Prop = "C15" => DrainDlOk(r)) /\ st' = st /\ pend' = [s \in DOMAIN pend |-> <<>>]
          [] r.ev = "Conc" -> (Prop = "C14" => ConcOk(r)) /\ st' = st /\ pend' = pend
          [] r.ev = "Shutdown" -> (Prop # "C12" => ShutdownOk(r)) /\ st' = st /\ pend' = pend
          [] OTHER -> FALSE
